@@ -161,6 +161,9 @@ func (k Keeper) AllocateConsumerRewards(ctx sdk.Context, consumerId string, allo
 				"chainId", chainId,
 				"error", err.Error(),
 			)
+			// do not consume the consumer's allocation when the transfer did not happen;
+			// the caller discards the cached context and keeps the credit for a later block
+			return types.ConsumerRewardsAllocation{}, err
 		}
 		k.Logger(ctx).Info(
 			"allocated ICS rewards to community pool",
